@@ -78,6 +78,8 @@ pub struct World {
     pub token_code_id: u64,
     /// light projection: balances of users / factory / router / base tokens only (registry-heavy worlds)
     pub light: bool,
+    /// successful CreatePair transactions seen so far (sanity check of the raw-storage projection)
+    pub created: usize,
 }
 
 fn s(v: &Value) -> String {
@@ -291,6 +293,7 @@ impl World {
             pair_code_id,
             token_code_id,
             light: setup["light"].as_bool().unwrap_or(false),
+            created: 0,
         };
         // register native denoms (the factory must hold a positive balance of the denom)
         for (d, dec, reg) in denoms.iter() {
@@ -726,7 +729,14 @@ impl World {
             Err(_) => json!({"ok": false, "why": "panic", "events": [], "text": "panic"}),
         };
         if res["ok"].as_bool().unwrap() && (kind == "fac_create_pair") {
+            self.created += 1;
             self.note_new_pairs();
+            // the registry is projected from the factory's raw storage; if a successful creation left no
+            // readable entry the storage layout is not the one this harness knows: a tool error, never a verdict
+            if self.registry().len() < self.created.min(1) {
+                eprintln!("harness: raw-storage projection of the factory registry is empty after a successful CreatePair");
+                std::process::exit(3);
+            }
         }
         (res, false)
     }
